@@ -877,19 +877,32 @@ impl<'a, 'tcx> Hx<'a, 'tcx> {
         let ln = self.cx.line(e.span);
         let mac = if e.span.from_expansion() { self.cx.span(e.span).2 } else { None };
         let n = self.expr_inner(e, ln);
-        match mac {
-            // annotate nodes that come out of a macro expansion with the macro chain
-            Some(m) => {
-                if let J::Arr(mut v) = n {
-                    let mut o = J::obj();
-                    o.set("m", J::s(m));
-                    v.push(o);
-                    J::Arr(v)
-                } else {
-                    n
-                }
+        // a path that names a local carries the identity of its binder ("b": item-local id of the binding pattern), so that a
+        // re-binding of the same name (shadowing) can be told from the original binding
+        let bind: Option<i64> = if let hir::ExprKind::Path(qp) = &e.kind {
+            match self.tr.qpath_res(qp, e.hir_id) {
+                Res::Local(hid) => Some(hid.local_id.as_u32() as i64),
+                _ => None,
             }
-            None => n,
+        } else {
+            None
+        };
+        if mac.is_none() && bind.is_none() {
+            return n;
+        }
+        if let J::Arr(mut v) = n {
+            // annotate nodes that come out of a macro expansion with the macro chain
+            let mut o = J::obj();
+            if let Some(m) = mac {
+                o.set("m", J::s(m));
+            }
+            if let Some(b) = bind {
+                o.set("b", J::n(b));
+            }
+            v.push(o);
+            J::Arr(v)
+        } else {
+            n
         }
     }
 
@@ -1035,11 +1048,12 @@ impl<'a, 'tcx> Hx<'a, 'tcx> {
         match &p.kind {
             P::Missing => J::arr(vec![J::s("pwild")]),
             P::Wild => J::arr(vec![J::s("pwild")]),
-            P::Binding(mode, _, id, sub) => J::arr(vec![
+            P::Binding(mode, hid, id, sub) => J::arr(vec![
                 J::s("pbind"),
                 J::s(id.to_string()),
                 J::s(d(mode)),
                 sub.map(|x| self.pat(x)).unwrap_or(J::Null),
+                J::n(hid.local_id.as_u32() as i64),
             ]),
             P::Struct(qp, fields, rest) => {
                 let (pp, k) = self.qpath(qp, p.hir_id);
